@@ -31,14 +31,18 @@ CHECKS.update({
  "C01": (MC, TRACE_TECH + "; invariant Canonical on every outcome component" + MACH_TECH,
          "Every real component of every outcome of the pooled arithmetic corpus is judged canonical by TLC (spec/Exact.tla Canonical)." + MACH_TEXT,
          TRACE_NOTE, "DESIGN.md §4 C01"),
- "C03": (EX, TRACE_TECH + " (PostPowInt: exact power on limbs, side / 1-ulp / exactness clauses)",
-         "x**n events (libmp, ** operator, power()) judged by TLC against the exact power computed on limbs.",
+ "C03": (MC, TRACE_TECH + " (PostPowInt: exact power on limbs, side / 1-ulp / exactness clauses); TLC exhaustive model of the transcribed mpf_pow_int "
+         "(MpfMachineL: directed binary exponentiation, reciprocal mode swap; scaled and real thresholds) with the real-threshold transitions replayed on the real function",
+         "x**n events (libmp, ** operator, power()) judged by TLC against the exact power computed on limbs, incl. hard cases (many-bit n-th roots of p-bit numbers). "
+         "MpfMachineL (TLC, exhaustive, limbs): the transcribed mpf_pow_int meets PostPowInt for every base of a miniature universe (incl. 104- and 341-bit mantissas), exponent in "
+         "{-5..7} / {-3,2,3,5,8}, precision and mode, with the exact-power threshold scaled to 12 (loop reached by small operands) and real (1000); the real-threshold "
+         "transitions are replayed on the real function (identical tuples).",
          TRACE_NOTE + " Exact powers limited to 15000 bits.", "DESIGN.md §4 C03"),
  "C05": (MC, TRACE_TECH + " (exact dyadic comparison; equal => equal hash)" + MACH_TECH,
          "Comparison and hash events (mpf vs mpf/int/float, all six relations) judged by TLC against exact comparison." + MACH_TEXT + " (The hash rule is covered by the trace part only.)",
          TRACE_NOTE, "DESIGN.md §4 C05"),
  "C06": (MC, TRACE_TECH + " (integer-part definitions; modulo with verified quotient witness)" + MACH_TECH,
-         "floor/ceil/nint/frac/int()/mod events judged by TLC; the quotient of x mod y is an untrusted witness verified exactly by the spec." + MACH_TEXT + " (The model covers mpf_mod; the integer-part functions are covered by the trace part only.)",
+         "floor/ceil/nint/frac/int()/mod events judged by TLC; the quotient of x mod y is an untrusted witness verified exactly by the spec." + MACH_TEXT + " The model also covers mpf_round_int (floor / ceil / nint = the exact integer part for every 5-bit (8-bit thorough) mantissa and exponent), replayed on the real function.",
          TRACE_NOTE + " x mod 0 is outside the statement and not judged.", "DESIGN.md §4 C06"),
  "C09": (EX, TRACE_TECH + " (IEEE double geometry F64Val / PostToFloat)",
          "float(x) and mpf(float) events judged by TLC against the double geometry defined in the spec.",
